@@ -12,7 +12,10 @@ AttrEscaped == AttrEscapedOn(st)
 PythonGated == (Done /\ st.err = "" /\ ~case.py) => TX!Find(st.out, "PY") = 0
 \* after any completed expansion the Context's stacks are empty again and no global was lost
 ContextRestored == (Done /\ st.err = "") => Restored(st, G0(case))
-\* a TAL-free document is one OUTPUT command that re-serialises it
+\* a TAL-free document is one OUTPUT command that re-serialises it.  Named deviation RawTextEscaped: handle_data
+\* escapes the content of script/style elements like ordinary text (TALCompile follows the code)
 TalFree(c) == c.fam = "doc"
-PassThrough == (Done /\ TalFree(case)) => (st.out = Sem!Doc(Ref.t) /\ Len(prog) = 1)
+PassThrough == (Done /\ TalFree(case)) =>
+                   /\ Len(prog) = 1
+                   /\ (st.out = Sem!Doc(Ref.t) \/ (KnownRawTextEscaped /\ Sem!HasRawMarkup(case.tree, 1)))
 =============================================================================
